@@ -71,3 +71,15 @@ Theorem C05_checked_matches_are_represented : forall s p, matches_okb s p = true
     lookup_pat s' p sb = Ok (Some a) /\ eg_eq s' a (mr_root r) = Ok true.
 Proof. exact matches_okb_sound. Qed.
 Print Assumptions C05_checked_matches_are_represented.
+
+(* third session (EGraph/MatchReprFix.v, MatchReprFacts.v): for depth-one patterns the two structural hypotheses of
+   MatchLookup.v are discharged - in every state satisfying the reachable invariant `match_inv`, every substitution
+   the matcher returns instantiates the pattern to a term that the read-only lookup finds in a live class. *)
+From SE Require Import Parse.Parser EGraph.Rewrite EGraph.MatchReprFacts.
+Theorem C05_depth_one_matches_are_represented : forall s, match_inv s ->
+  forall nd vs l s', List.NoDup vs -> List.length vs = List.length (app_occ nd) ->
+    pat_below (Model.ctr s) (PNode nd (List.map PVarP vs)) ->
+    ematch_all (PNode nd (List.map PVarP vs)) s = Ok (l, s') ->
+    forall sb, List.In sb l -> exists a, lookup_pat s' (PNode nd (List.map PVarP vs)) sb = Ok (Some a) /\ List.In (aid a) (ids s).
+Proof. exact matches_are_represented_inv. Qed.
+Print Assumptions C05_depth_one_matches_are_represented.
